@@ -1,4 +1,5 @@
 import ConduitModel.Generated.Dlq
+import ConduitModel.Generated.DlqCfg
 import ConduitModel.Props.C07
 
 /-!
@@ -19,5 +20,22 @@ theorem C07_fact_default_tolerates_none (h : List Bool) :
     ∀ i : Nat, h[i]? = some true →
       (runV1 (Win.new defaultWindowSize defaultWindowNackThreshold) h).2[i]? = some false :=
   C07_thr_zero_none defaultWindowSize (by decide) h
+
+/-- v1: the window the DLQ handler node decides with is built from exactly the pipeline's configured
+parameters — `buildDLQHandlerNode` copies `pl.DLQ.WindowSize` / `pl.DLQ.WindowNackThreshold` into the node
+unchanged (no rewrite on the way) and `DLQHandlerNode.Run` hands the node's fields to `newDLQWindow`.
+So the window theorems (`Win.new size thr`) apply with `size`, `thr` = the CONFIGURED values; in
+particular window size 0 keeps meaning "no limit" (`C07_size_zero_no_limit`). -/
+theorem C07_fact_v1_window_is_configured :
+    Conduit.Generated.DlqCfg.v1NodeWindowFields = ["pl.DLQ.WindowSize", "pl.DLQ.WindowNackThreshold"] ∧
+    Conduit.Generated.DlqCfg.v1WindowRewrites = [] ∧
+    Conduit.Generated.DlqCfg.v1WindowCtorArgs = ["n.WindowSize", "n.WindowNackThreshold"] := by decide
+
+/-- v2: `buildDLQ` passes the configured parameters to `funnel.NewDLQ`, which passes its two window
+parameters to `newDLQWindow` unchanged. -/
+theorem C07_fact_v2_window_is_configured :
+    Conduit.Generated.DlqCfg.v2NewDLQWindowArgs = ["pl.DLQ.WindowSize", "pl.DLQ.WindowNackThreshold"] ∧
+    Conduit.Generated.DlqCfg.v2WindowRewrites = [] ∧
+    Conduit.Generated.DlqCfg.v2WindowCtorArgs = Conduit.Generated.DlqCfg.v2NewDLQWindowParams := by decide
 
 end Conduit.Facts.C07
